@@ -32,9 +32,10 @@ def isValidEntityCode (c : Nat) : Bool :=
     && !(decide (0x7F ≤ c) && decide (c ≤ 0x9F)) && !decide (c > 0x10FFFF)
 
 def digitVal (c : Char) : Option Nat :=
-  if '0' ≤ c ∧ c ≤ '9' then some (c.toNat - 48)
-  else if 'a' ≤ c ∧ c ≤ 'f' then some (c.toNat - 87)
-  else if 'A' ≤ c ∧ c ≤ 'F' then some (c.toNat - 55)
+  let n := c.toNat
+  if 48 ≤ n ∧ n ≤ 57 then some (n - 48)
+  else if 97 ≤ n ∧ n ≤ 102 then some (n - 87)
+  else if 65 ≤ n ∧ n ≤ 70 then some (n - 55)
   else none
 
 /-- `int(s, base)` on ASCII digits; anything else is Python's `ValueError` -/
@@ -44,6 +45,12 @@ def parseIntBase (base : Nat) : List Char → Nat → Except PyErr Nat
     match digitVal c with
     | some d => if d < base then parseIntBase base rest (acc * base + d) else .error (.valueError "int")
     | none => .error (.valueError "int")
+
+/-- `int(match1[1:], 16) if match1[0].lower() == "x" else int(match1, 10)` -/
+def entityCode (g1 : List Char) : Except PyErr Nat :=
+  match g1 with
+  | [] => .error .indexError
+  | c :: h => if c == 'x' || c == 'X' then parseIntBase 16 h 0 else parseIntBase 10 g1 0
 
 def Tok.setAttrs' (t : Tok) (a : List (String × AttrVal)) : Tok :=
   match t with
@@ -71,12 +78,7 @@ def ruleEntity (ext : IExt) : IRule := fun s silent =>
         | none => .ok (false, s)
         | some n =>
           if silent then .ok (true, { s with pos := s.pos + n }) else
-          let g1 := (rest.take (n - 1)).drop 2          -- `match.group(1)`: between `&#` and `;`
-          let codeE := match g1 with
-            | 'x' :: h => parseIntBase 16 h 0
-            | 'X' :: h => parseIntBase 16 h 0
-            | _ => parseIntBase 10 g1 0
-          match codeE with
+          match entityCode ((rest.take (n - 1)).drop 2) with   -- `match.group(1)`: between `&#` and `;`
           | .error e => .error e
           | .ok code =>
             let ch := if isValidEntityCode code then Char.ofNat code else Char.ofNat 0xFFFD
